@@ -25,11 +25,17 @@ def check(ctx):
     ps = persist.Persist(ctx, [ctx.fn(f'{GP}.get_graph')], fns)
     ps.check_writes()
     ctx.floor('A6', 5, 'reported-vector sinks')
+    from ..rules import indexspace as _ix
+    _ix.check_position_map_keys(ctx, [f for f in ctx.prog.all_functions() if f.module.name.startswith(('adsg_core.optimization.graph_processor', 'adsg_core.optimization.hierarchy'))],
+                                required=[f'{GP}.all_des_var_idx_map'])
+    ctx.floor('A21i', 2, 'position maps keyed by objects (design variables, choice nodes)')
 
 
 from ..selftest import V  # noqa: E402
 
 VARIANTS = [
+    V('desvar-compared-by-value', 'optimization/dv_output_defs.py',
+      [("    def __str__(self):\n        if self.is_discrete:\n            return f'DV: ", "    def __hash__(self):\n        return hash(self.name)\n\n    def __eq__(self, other):\n        return isinstance(other, DesVar) and self.name == other.name\n\n    def __str__(self):\n        if self.is_discrete:\n            return f'DV: ")], key='A21i'),
     V('decode-echoes-selection-input', 'optimization/graph_processor.py',
       [("        opt_dec_used_values: List[Optional[int]] = \\\n            [int(val) for val in list(np.array(sel_choice_opt_idx)[self._sel_choice_idx_map])]",
         "        opt_dec_used_values: List[Optional[int]] = \\\n            [int(val) for val in des_var_values[:len(self._sel_choice_idx_map)]]")],
